@@ -60,6 +60,7 @@ type Scenario struct {
 	Peers       int            `json:"peers,omitempty"`
 	StallAt     int            `json:"stall_at,omitempty"` // tcp, one peer: before its n-th frame (1-based) the peer sends only StallOctets of it, pauses longer than the server\'s read timeout, then carries on
 	StallOctets int            `json:"stall_octets,omitempty"`
+	DefaultMux  bool           `json:"default_mux,omitempty"`     // mux: the package-level Handle / HandleFunc / HandleRemove and DefaultServeMux instead of a ServeMux of the run's own
 	NoInvalidFn bool           `json:"no_invalid_func,omitempty"` // Server.MsgInvalidFunc is left unset (the default configuration): reports cannot be observed, everything else can
 	Trickle     bool           `json:"trickle,omitempty"`         // the stalled frame arrives in three pieces, 1.5 and 1 read timeouts apart (each piece makes progress, none arrives in time)
 	CutAt       int            `json:"cut_at,omitempty"`          // tcp, one peer: its n-th frame (1-based) announces its full length but only CutOctets of the body are sent before the peer closes
@@ -97,6 +98,7 @@ func Gen(seed uint64, tier string) any {
 	sc.PCTDepth = 1 + r.IntN(3)
 	if core.Chance(r, 35) {
 		sc.Kind = "mux"
+		sc.DefaultMux = core.Chance(r, 25)
 		sc.Initial = map[string]int{}
 		for i := 0; i < r.IntN(4); i++ {
 			sc.Initial[randName(r, r.IntN(4))] = 1 + r.IntN(6)
@@ -618,6 +620,9 @@ func runAdmission(sc *Scenario, res *core.Result, verbose bool) {
 	}
 	if sc.Yield {
 		a.srv.DecorateReader = (&common.Decorator{K: k}).Decorate
+		if sc.RunSeed%3 == 0 {
+			a.srv.DecorateWriter = (&common.WDecorator{K: k}).Decorate
+		}
 	}
 	if sc.StallAt > 0 {
 		a.srv.ReadTimeout, a.srv.IdleTimeout = stallTimeout, shortIdle
@@ -1079,9 +1084,22 @@ func (t *muxTask) RunEvent(time.Time) {
 		out := muxOut{}
 		switch op.Kind {
 		case "handle":
-			r.mux.Handle(op.Pattern, &r.hs[op.H])
+			switch h := &r.hs[op.H]; {
+			case r.sc.DefaultMux && op.H%2 == 0:
+				dns.Handle(op.Pattern, h)
+			case r.sc.DefaultMux:
+				dns.HandleFunc(op.Pattern, h.ServeDNS)
+			case op.H%3 == 0:
+				r.mux.HandleFunc(op.Pattern, h.ServeDNS)
+			default:
+				r.mux.Handle(op.Pattern, h)
+			}
 		case "remove":
-			r.mux.HandleRemove(op.Pattern)
+			if r.sc.DefaultMux {
+				dns.HandleRemove(op.Pattern)
+			} else {
+				r.mux.HandleRemove(op.Pattern)
+			}
 		case "dispatch":
 			req := new(dns.Msg)
 			req.SetQuestion(op.QName, op.QType)
@@ -1202,6 +1220,21 @@ func runMux(sc *Scenario, res *core.Result, verbose bool) (hist []porcupine.Oper
 	r := &muxRun{sc: sc, k: k, res: res, mux: dns.NewServeMux()}
 	for i := range r.hs {
 		r.hs[i] = idHandler{r, i}
+	}
+	if sc.DefaultMux {
+		// the process-wide multiplexer: emptied again when the run is over
+		r.mux = dns.DefaultServeMux
+		res.Bump("cover.default_serve_mux")
+		defer func() {
+			for p := range sc.Initial {
+				dns.HandleRemove(p)
+			}
+			for _, op := range sc.Ops {
+				if op.Kind == "handle" {
+					dns.HandleRemove(op.Pattern)
+				}
+			}
+		}()
 	}
 	initial = map[string]int{}
 	for _, p := range core.SortedKeys(sc.Initial) { // two spellings of one name may both be there: the order decides
